@@ -258,7 +258,11 @@ func c12Check(in c12Input) (key, what string) {
 			continue
 		}
 		if m := posOrderMismatch(posItems(af), posItems(pf)); m != "" {
-			return "c12-order", fmt.Sprintf("file %d: %s", fi, m)
+			k := "c12-order"
+			if src == c12GenericAlias && strings.Contains(m, "TypeSpec.Assign") {
+				k = "generic-alias-assign-before-type-params"
+			}
+			return k, fmt.Sprintf("file %d: %s", fi, m)
 		}
 		a, b := orderedItems(af), orderedItems(pf)
 		if len(a) != len(b) {
@@ -315,7 +319,18 @@ func c12Prop(c *Ctx) {
 		}
 	}
 	c04KnownStartNewline(c)
+	// the recorded finding: a generic type alias (the generated TypeSpec case assigns the position
+	// of '=' before it restores the type parameters)
+	{
+		in := c12Input{Srcs: []string{c12GenericAlias}, Seed: 1}
+		c.Res.Evaluations++
+		if key, what := c12Check(in); key != "" {
+			c.Res.fail(key, what, in)
+		}
+	}
 }
+
+const c12GenericAlias = "package a\n\ntype A[P any] = B[P]\n\ntype B[P any] struct{ x P }\n"
 
 func init() {
 	props["C12"] = c12Prop
